@@ -534,6 +534,23 @@ def check_run(ck, case, cfg, scratch, use_model=True):
                     if list(f.times) != [lo, hi]:
                         ck.violation("output-name", f"output file {os.path.basename(f.path)} holds collocations spanning {lo}..{hi}", full)
         got.sort()
+        # explicit claim: with bundle='primary' every primary file's results form exactly one bundle
+        # (one dataset / output file per primary), also when matches were skipped
+        if cfg["bundle"] == "primary" and r["error"] is None and not crash_expected:
+            id2p = {pt["id"]: i for i, f in enumerate(case["sets"][0]) for pt in f["pts"]}
+            bundles = []
+            if cfg["output"] == "memory":
+                bundles = [ds_pairs(item[0]) for item in r["results"] if item is not CM.ProcessCrashed]
+            elif len(set(names)) == len(names):
+                bundles = list(contents_name.values())
+            prims = [sorted({id2p.get(a) for a, _ in b}) for b in bundles]
+            seen = [p for ps in prims for p in ps]
+            if any(len(ps) != 1 for ps in prims) or len(seen) != len(set(seen)):
+                lag = cfg["skip"] and cfg["broken"] is not None
+                ck.violation("bundle-tag-lag" if lag else "bundle-not-per-primary",
+                             f"processes={cfg['procs']} bundle=primary output={cfg['output']} skip={cfg['skip']} broken={cfg['broken']}: "
+                             f"the yielded bundles hold the primary files {prims} (expected: every primary file in exactly one bundle, "
+                             f"one primary per bundle)" + (" -- the bundle tag lags behind after a skipped match" if lag else ""), full)
         if crashed_marker and not crash_expected:
             ck.violation("worker-crashed", f"processes={cfg['procs']} bundle={cfg['bundle']} skip={cfg['skip']} broken={cfg['broken']}: the generator "
                                            f"yielded {crashed_marker} ProcessCrashed marker(s) although no file is unreadable"
@@ -865,7 +882,7 @@ def main():
             check_run(ck, big, dict(DEFAULT_CFG, **cfg), scratch, use_model)
         li = gen_long_interval(ck.rng, dt.datetime(2017, 3, 1))
         check_run(ck, li, gen_config(ck.rng, li, force={"broken": None, "skip": False, "open": None}, stress=False), scratch, use_model)
-        explore(ck, ck.budget(12, 80), 2 if ck.tier == "quick" else 5, scratch, use_model)
+        explore(ck, ck.budget(10, 80), 2 if ck.tier == "quick" else 5, scratch, use_model)
         if ck.broken() and not ck.violations:
             # failing-input search on the real code (oracle only) with the larger budget
             explore(ck, 60 if ck.tier == "quick" else 150, 4, scratch, use_model=False)
